@@ -58,7 +58,7 @@ def run(ctx):
     ctx.harness(binary, ["-plans", pdir, "-out", ctx.path("seq.ndjson"), "-conc", ctx.path("conc.ndjson"),
                          "-seed", ctx.seed, "-hist", ctx.q(50, 200), "-maxops", ctx.q(160, 400),
                          "-npar", ctx.q(12, 150), "-nconc", ctx.q(60, 1200), "-nstress", ctx.q(6, 100),
-                         "-nrace", ctx.q(30000, 300000), "-nracekeep", ctx.q(1500, 9000), "-racesecs", ctx.q(25, 120), "-shapeevery", ctx.q(2, 1),
+                         "-nrace", ctx.q(30000, 300000), "-nracekeep", ctx.q(1200, 9000), "-racesecs", ctx.q(25, 120), "-shapeevery", ctx.q(2, 1),
                          "-sweep", ctx.q(4, 10), "-stats", ctx.path("stats.json")],
                 timeout=1800, traces=[ctx.path("seq.ndjson"), ctx.path("conc.ndjson")])
     # 4. validate what the real code did
